@@ -30,6 +30,8 @@ func c01Patterns() []string {
 		// scheme-prefixed patterns: for host-name requests they are applied to the synthesised http:// URL,
 		// and their first shortcut windows lie inside the scheme
 		"http://example.org^", "http://example", "http://a.com", "http://sub.example.org^", "://example.org", "https://a.com/",
+		// capital letters in the pattern (they matter together with $match-case)
+		"/BannerAd/", "AdServer", "||Example.org/Ads",
 		// patterns that reach into the fragment of a URL
 		"/app#!/promo-page", "||example.org/#promo", "page.html#top", "/ads/x.js#frag"}
 	for _, c := range windowColliders {
@@ -50,6 +52,7 @@ func c01URLs() []string {
 		"http://пример.рф/реклама", "http://x.com/ads/баннер.gif", "http://x.com/РЕКЛАМА/ёж", "http://localhost/ads/x.js",
 		"http://example.org/\u023a/adsa6", "http://x.com/\u023e\u023a\u023e/q?adsgp", "http://x.com/\u212a\u212a/banner_ad", "http://Example.ORG/ads/adsa6",
 		"http://x.com/ad\u017fa6/ad\u017fgp", "http://example.org/ad\u017f/x.js", "http://x.com/ad\u017f/x", "http://x.com/\u212a/ad\u017fa6", // U+017F and U+212A fold to s and k
+		"http://x.com/BannerAd/img.png", "http://x.com/bannerad/", "http://AdServer.example/", "http://Example.org/Ads", "http://example.org/ads",
 		"https://example.org/#promo", "http://x.com/app#!/promo-page", "http://x.com/page.html#top", "http://example.org/ads/x.js#frag", "http://x.com/q#!/promo-page/app#!/promo"}
 	for _, c := range windowColliders {
 		u = append(u, "http://x.com/"+c[0], "http://x.com/q/"+c[1], "http://x.com/"+c[0]+"/x/"+c[0], "http://"+c[1])
